@@ -3,8 +3,9 @@ package signaller
 import (
 	"crypto/sha256"
 	"fmt"
-	"math"
 	"time"
+
+	sdkmath "cosmossdk.io/math"
 
 	sdk "github.com/cosmos/cosmos-sdk/types"
 
@@ -36,12 +37,13 @@ func isDeviated(deviationBasisPoint int64, oldPrice uint64, newPrice uint64) boo
 		return newPrice != 0
 	}
 
-	// Calculate the deviation
-	diff := math.Abs(float64(newPrice) - float64(oldPrice))
-	dev := int64((diff * 10000) / float64(oldPrice))
+	// Calculate the deviation in integer arithmetic, as the chain does: float64 cannot hold prices
+	// above 2^53 exactly, which misjudged moves of exactly the threshold
+	oldP := sdkmath.NewIntFromUint64(oldPrice)
+	dev := sdkmath.NewIntFromUint64(newPrice).Sub(oldP).Abs().MulRaw(10000).Quo(oldP)
 
 	// Check if the new price deviation is meets or exceeds the bounds
-	return deviationBasisPoint <= dev
+	return dev.GTE(sdkmath.NewInt(deviationBasisPoint))
 }
 
 func convertPriceData(price *bothan.Price) (types.SignalPrice, error) {
